@@ -254,6 +254,11 @@ def foreign_events(ctx):
         corpus.append(('foreign signature: ' + label, 2, build.read_packets(pk)[0][1]))
     pk, _ = build.sig_packet(fk, 0x00, 'sha512', [], [], doc, created=1262304000, pad_mpi=2)
     corpus.append(('foreign rsa signature with padded MPI', 2, build.read_packets(pk)[0][1]))
+    # fixed header fields with values PGPy's enums do not know: the hash algorithm octet (SHA3 ids 12 / 14, a private id) - the packet
+    # cannot be verified here but it is well-formed and must be written back as it is
+    base_sig = build.read_packets(build.sig_packet(ek, 0x00, 'sha256', [build.subpacket(27, b'\x03')], [], doc, created=1262304000)[0])[0][1]
+    for hid_ in (12, 14, 100, 110):
+        corpus.append(('foreign signature: hash algorithm id %d' % hid_, 2, base_sig[:3] + bytes([hid_]) + base_sig[4:]))
     # every subpacket type with every well-formed body class in the UNHASHED area (PGPy re-encodes that area from its typed objects:
     # nothing but the length encoding may change)
     from . import c05 as _c05
